@@ -299,6 +299,57 @@ def eol_rule(rep):
     rep.floor("C03.e", n, 150)
 
 
+ATOMIC_EXEMPT = {
+    "IGXMLScanner::scanDocTypeDecl": "error recovery after a missing `>` of the DOCTYPE: both outcomes report a fatal error, no content is delivered from here",
+    "DGXMLScanner::scanDocTypeDecl": "same error recovery as in IGXMLScanner",
+    "DTDScanner::scanIgnoredSection": "inside an ignored conditional section every character is discarded anyway",
+}
+SCAN_TUS = ["src/xercesc/internal/IGXMLScanner.cpp", "src/xercesc/internal/IGXMLScanner2.cpp", "src/xercesc/internal/DGXMLScanner.cpp",
+            "src/xercesc/internal/SGXMLScanner.cpp", "src/xercesc/internal/WFXMLScanner.cpp", "src/xercesc/internal/XSAXMLScanner.cpp",
+            "src/xercesc/internal/XMLScanner.cpp", "src/xercesc/validators/DTD/DTDScanner.cpp"]
+
+
+def atomic_delimiter_rule(rep):
+    from ..engines import guard
+    rep.rule("C03.f", "a multi-character delimiter is recognised atomically: the reader's skippedChar / skippedString / skippedSpace "
+             "consume what they match, so a condition `skippedX(a) && skippedX(b)` (CFG: the true edge of one consuming test leads "
+             "straight into a second one that shares its false target) leaves `a` consumed when `b` does not follow — e.g. the second "
+             "`]` of `]]` inside a CDATA section would be dropped. No such pair exists in the scanners; delimiters are matched with "
+             "one skippedString call")
+    g = core.run_xa([os.path.join(core.REPO, t) for t in SCAN_TUS],
+                    cfg=r"^(IGXMLScanner|DGXMLScanner|SGXMLScanner|WFXMLScanner|XSAXMLScanner|XMLScanner|DTDScanner)::", flat=False)
+    CONSUME = ("skippedChar", "skippedString", "skippedStringLong", "skippedSpace")
+
+    def consuming(c):
+        while c and c[0] == "u" and c[1] == "!":
+            return False        # a negated test: the continuing edge is the 'not matched' one
+        return bool(c) and c[0] == "c" and c[1].split("::")[-1] in CONSUME
+    nfun = ntests = 0
+    for q, raws in sorted(g.cfgs.items()):
+        for raw in raws:
+            cfg = guard.Cfg(raw)
+            nfun += 1
+            for bid, blk in cfg.blocks.items():
+                t = blk.get("term")
+                if not t or len(blk["succ"]) != 2 or not consuming(t.get("cond")):
+                    continue
+                ntests += 1
+                b2 = blk["succ"][0]
+                if b2 is None:
+                    continue
+                blk2 = cfg.blocks[b2]
+                t2 = blk2.get("term")
+                if t2 and len(blk2["succ"]) == 2 and consuming(t2.get("cond")) and blk2["succ"][1] == blk["succ"][1] and \
+                        all(guard.el_top_calls(e) == [] or e.get("x") == t2.get("cond") or consuming(e.get("x")) for e in blk2["els"]):
+                    ex = ATOMIC_EXEMPT.get(q)
+                    rep.ob("C03.f", "%s@%s" % (q, core.sx_str(t["cond"])), bool(ex), ("exempt: " + ex) if ex else
+                           "%s (line %s) tests %s && %s: when the first matches and the second does not, the character consumed by the "
+                           "first is lost" % (q, t.get("l"), core.sx_str(t["cond"]), core.sx_str(t2["cond"])), "%s:%s" % (cfg.file, t.get("l", 0)))
+    rep.count(ntests)
+    rep.ob("C03.f", "scanners", True, "%d consuming tests in %d scanner functions, none chained with && outside the three exempt places" % (ntests, nfun), "")
+    rep.floor("C03.f", ntests, 60)
+
+
 def run(rep):
     f = core.library_facts()
     rep.units.update(os.path.relpath(t, core.REPO) for t in f.tus)
@@ -309,6 +360,7 @@ def run(rep):
     collapse_rule(rep)
     escaped_flag_rule(rep, f)
     eol_rule(rep)
+    atomic_delimiter_rule(rep)
     rep.undecided += ["every value-level clause: line-end and attribute-value normalisation, entity expansion results, character references, "
                       "DTD defaulting, line numbers — not applicable to static analysis",
                       "that the forwarded arguments are the right ones"]
